@@ -702,4 +702,54 @@ def refine_bounds(assertions, memo):
         visit(a, True)
 
 
+def eval_term(t, model):
+    """concrete value of a term under a model {var name: value}; variables missing from the model take their lower bound / 0"""
+    memo = {}
+
+    def ev(x):
+        if isinstance(x, (bool, int)):
+            return x
+        k = id(x)
+        if k in memo:
+            return memo[k]
+        op = x[0]
+        if op == "var":
+            if x[1] in model:
+                r = model[x[1]]
+                r = bool(r) if x[2] == "B" else int(r)
+            elif x[2] == "B":
+                r = False
+            else:
+                r = x[3] if x[3] is not None else (x[4] if x[4] is not None and x[4] < 0 else 0)
+        elif op == "b2i":
+            r = int(bool(ev(x[1])))
+        elif op == "not":
+            r = not ev(x[1])
+        elif op == "andb":
+            r = all(ev(y) for y in x[1:])
+        elif op == "orb":
+            r = any(ev(y) for y in x[1:])
+        elif op == "iff":
+            r = bool(ev(x[1])) == bool(ev(x[2]))
+        elif op in ("ite", "iteb"):
+            r = ev(x[2]) if ev(x[1]) else ev(x[3])
+        elif op in ("uf", "ufb"):
+            r = 0 if op == "uf" else False
+        elif op == "eq":
+            r = ev(x[1]) == ev(x[2])
+        elif op == "lt":
+            r = ev(x[1]) < ev(x[2])
+        elif op == "le":
+            r = ev(x[1]) <= ev(x[2])
+        else:
+            a, b = ev(x[1]), ev(x[2])
+            try:
+                r = _fold(op, int(a), int(b))
+            except PyArith:
+                r = 0
+        memo[k] = r
+        return r
+    return ev(t)
+
+
 _fresh = itertools.count()
